@@ -45,6 +45,39 @@ def remove_delays():
         m.compute_features = ORIGINAL
 
 
+def isolated(fn, *args, **kwargs):
+    """Run fn in a freshly forked child and return its result (exceptions are re-raised in the parent).
+
+    The shard process itself then never executes the analysis code, so per-process state of the code under test
+    (module-level caches, memoisation) cannot poison the reference in the same way as it poisons a worker that
+    handles several rows - an in-process differential is blind to that.
+    """
+    import os
+    import pickle
+    r, w = os.pipe()
+    pid = os.fork()
+    if pid == 0:
+        try:
+            os.close(r)
+            try:
+                payload = ('ok', fn(*args, **kwargs))
+            except BaseException as exc:  # noqa
+                payload = ('err', '%s: %s' % (type(exc).__name__, str(exc)[:200]))
+            data = pickle.dumps(payload)
+            with os.fdopen(w, 'wb') as fh:
+                fh.write(data)
+        finally:
+            os._exit(0)
+    os.close(w)
+    with os.fdopen(r, 'rb') as fh:
+        data = fh.read()
+    os.waitpid(pid, 0)
+    kind, val = pickle.loads(data)
+    if kind == 'err':
+        raise RuntimeError(val)
+    return val
+
+
 def reference(sig, fs, f_range, kw, return_samples=True):
     kw = gen.copy_json_kwargs(kw or {})
     kw.pop('return_samples', None)
